@@ -783,6 +783,19 @@ static void run_op(char **t, int nt)
 		evflush();
 		return;
 	}
+	if (!strcmp(op, "dumpsec")) {
+		/* dumpsec <L> <path>: dump of the section cfg_getsec(path) returns */
+		char *path; cfg_t *sec;
+		NEED(3); LOC(1);
+		path = sdec(t[2], NULL);
+		sec = cfg_getsec(loc_cfg, path);
+		free(path);
+		fputs("{\"ev\":\"dumpsec\",\"tree\":", LOG);
+		dump_cfg(sec, 0);
+		fputs("}\n", LOG);
+		evflush();
+		return;
+	}
 	if (!strcmp(op, "vhash")) {
 		/* hash of the values-only dump (names, titles, values; no flags, no annotations) */
 		char *buf = NULL; size_t sz = 0, k; FILE *save = LOG, *ms; unsigned long h = 1469598103934665603ul;
